@@ -34,11 +34,20 @@
 (*                 signature) is not the error class the leader reacts to  *)
 (*                 (notary.go:506), so it re-sends the same transaction    *)
 (*                 until the shared data expires                           *)
-(* With both switches off the module describes the repaired code.          *)
+(*   "TriedSticky" triedDesignateRoleTx is never reset (notary.go:466 -    *)
+(*                 resetTx does not touch it - and line 463 consults the   *)
+(*                 register-domain monitor instead of the designation      *)
+(*                 monitor): once a designation transaction was sent, the  *)
+(*                 leader re-creates the shared data whenever it has       *)
+(*                 gathered the signatures and never sends again.  Without *)
+(*                 losses this only costs one needless setRecord; with a   *)
+(*                 lost designation transaction (Lose, at most MaxLoss     *)
+(*                 times, unfair) it is a livelock.                        *)
+(* With all switches off the module describes the repaired code.           *)
 (***************************************************************************)
 EXTENDS Integers, Sequences, FiniteSets, TLC
 
-CONSTANTS N, Life, G, MaxCancel, Absent, Dev
+CONSTANTS N, Life, G, MaxCancel, Absent, Dev, MaxLoss
 
 Members == 0..(N - 1)
 Signers == 1..(N - 1)
@@ -63,8 +72,8 @@ VARIABLES
   \* signers
   stx,
   \* scheduling
-  alive, ticked, cancels, gen, badAssembled
-vars == <<doms, shared, sig, pool, ntrIn, ltx, lsigs, fully, lgood, tried, stx, alive, ticked, cancels, gen, badAssembled>>
+  alive, ticked, cancels, gen, badAssembled, losses
+vars == <<doms, shared, sig, pool, ntrIn, ltx, lsigs, fully, lgood, tried, stx, alive, ticked, cancels, gen, badAssembled, losses>>
 
 Ntr == ntrIn = 0
 
@@ -73,7 +82,7 @@ Init ==
   /\ ltx = None /\ lsigs = {} /\ fully = FALSE /\ lgood = TRUE /\ tried = FALSE
   /\ stx = [j \in Members |-> None]
   /\ alive = [i \in Members |-> i \notin Absent] /\ ticked = [i \in Members |-> FALSE] /\ cancels = 0 /\ gen = 0
-  /\ badAssembled = FALSE
+  /\ badAssembled = FALSE /\ losses = 0
 
 Done(i) == ticked' = [ticked EXCEPT ![i] = TRUE]
 Sent(k) == \E t \in pool : t.k = k.k /\ t.by = k.by       \* the monitor of that kind of transaction is pending
@@ -81,9 +90,9 @@ Sent(k) == \E t \in pool : t.k = k.k /\ t.by = k.by       \* the monitor of that
 \* ---------------------------------------------------------------- leader
 LeaderVars == <<ltx, lsigs, fully, lgood, tried>>
 
-\* generateAndShareTxData: resetTx (triedDesignateRoleTx is NOT reset by the code), new data, add/setRecord
+\* generateAndShareTxData: resetTx (which does NOT reset triedDesignateRoleTx in the code: "TriedSticky"), new data, add/setRecord
 Generate ==
-  /\ ltx' = None /\ lsigs' = {} /\ fully' = FALSE /\ lgood' = TRUE /\ tried' = tried
+  /\ ltx' = None /\ lsigs' = {} /\ fully' = FALSE /\ lgood' = TRUE /\ tried' = (tried /\ "TriedSticky" \in Dev)
   /\ gen' = (gen + 1) % G
   /\ pool' = pool \cup {[k |-> "share", by |-> 0, g |-> (gen + 1) % G]}
   /\ UNCHANGED badAssembled
@@ -101,7 +110,7 @@ Collect(have, i, g) ==            \* ascending scan, stops as soon as enough sig
 LTick ==
   /\ alive[0] /\ ~ticked[0] /\ ~Ntr /\ N > 1
   /\ Done(0)
-  /\ UNCHANGED <<doms, shared, sig, ntrIn, stx, alive, cancels>>
+  /\ UNCHANGED <<doms, shared, sig, ntrIn, stx, alive, cancels, losses>>
   /\ IF TxDom \notin doms
      THEN /\ pool' = IF Sent([k |-> "reg", by |-> 0]) THEN pool ELSE pool \cup {[k |-> "reg", by |-> 0, d |-> TxDom]}
           /\ UNCHANGED <<LeaderVars, gen, badAssembled>>
@@ -130,13 +139,13 @@ LTick1 ==
   /\ N = 1 /\ alive[0] /\ ~ticked[0] /\ ~Ntr
   /\ Done(0)
   /\ pool' = IF Sent([k |-> "des", by |-> 0]) THEN pool ELSE pool \cup {[k |-> "des", by |-> 0, g |-> 0]}
-  /\ UNCHANGED <<doms, shared, sig, ntrIn, LeaderVars, stx, alive, cancels, gen, badAssembled>>
+  /\ UNCHANGED <<doms, shared, sig, ntrIn, LeaderVars, stx, alive, cancels, gen, badAssembled, losses>>
 
 \* ---------------------------------------------------------------- signers
 STick(j) ==
   /\ j \in Signers /\ alive[j] /\ ~ticked[j] /\ ~Ntr
   /\ Done(j)
-  /\ UNCHANGED <<doms, shared, sig, ntrIn, LeaderVars, alive, cancels, gen, badAssembled>>
+  /\ UNCHANGED <<doms, shared, sig, ntrIn, LeaderVars, alive, cancels, gen, badAssembled, losses>>
   /\ IF shared.gen = None THEN UNCHANGED <<pool, stx>>                          \* wait for the leader
      ELSE IF shared.age > Life THEN stx' = [stx EXCEPT ![j] = None] /\ UNCHANGED pool
      ELSE /\ stx' = [stx EXCEPT ![j] = shared.gen]
@@ -147,7 +156,7 @@ STick(j) ==
 
 \* a member that sees the role returns from enableNotary
 Idle(i) == alive[i] /\ ~ticked[i] /\ Ntr /\ Done(i)
-           /\ UNCHANGED <<doms, shared, sig, pool, ntrIn, LeaderVars, stx, alive, cancels, gen, badAssembled>>
+           /\ UNCHANGED <<doms, shared, sig, pool, ntrIn, LeaderVars, stx, alive, cancels, gen, badAssembled, losses>>
 
 \* ---------------------------------------------------------------- chain
 Block ==
@@ -161,12 +170,18 @@ Block ==
                                THEN (CHOOSE t \in pool : t.k = "sig" /\ t.by = j).g ELSE sig[j]]
   /\ ntrIn' = IF ntrIn = 1 THEN 0 ELSE IF ntrIn = None /\ \E t \in pool : t.k = "des" THEN 1 ELSE ntrIn
   /\ pool' = {}
-  /\ UNCHANGED <<LeaderVars, stx, alive, cancels, gen, badAssembled>>
+  /\ UNCHANGED <<LeaderVars, stx, alive, cancels, gen, badAssembled, losses>>
+
+\* a pooled transaction is lost before the block (acknowledged to its sender, never executed)
+Lose(t) ==
+  /\ t \in pool /\ losses < MaxLoss
+  /\ pool' = pool \ {t} /\ losses' = losses + 1
+  /\ UNCHANGED <<doms, shared, sig, ntrIn, LeaderVars, stx, alive, ticked, cancels, gen, badAssembled>>
 
 Cancel(i) ==
   /\ alive[i] /\ ~Ntr /\ cancels < MaxCancel
   /\ alive' = [alive EXCEPT ![i] = FALSE] /\ cancels' = cancels + 1
-  /\ UNCHANGED <<doms, shared, sig, pool, ntrIn, LeaderVars, stx, ticked, gen, badAssembled>>
+  /\ UNCHANGED <<doms, shared, sig, pool, ntrIn, LeaderVars, stx, ticked, gen, badAssembled, losses>>
 
 \* a fresh run: the closure's context is lost (absent members start only when the role is visible)
 Restart(i) ==
@@ -175,9 +190,9 @@ Restart(i) ==
   /\ ticked' = [ticked EXCEPT ![i] = TRUE]
   /\ IF i = 0 THEN ltx' = None /\ lsigs' = {} /\ fully' = FALSE /\ lgood' = TRUE /\ tried' = FALSE /\ UNCHANGED stx
      ELSE stx' = [stx EXCEPT ![i] = None] /\ UNCHANGED LeaderVars
-  /\ UNCHANGED <<doms, shared, sig, pool, ntrIn, cancels, gen, badAssembled>>
+  /\ UNCHANGED <<doms, shared, sig, pool, ntrIn, cancels, gen, badAssembled, losses>>
 
-Next == LTick \/ LTick1 \/ Block \/ \E i \in Members : STick(i) \/ Idle(i) \/ Cancel(i) \/ Restart(i)
+Next == LTick \/ LTick1 \/ Block \/ (\E t \in pool : Lose(t)) \/ \E i \in Members : STick(i) \/ Idle(i) \/ Cancel(i) \/ Restart(i)
 
 Spec == Init /\ [][Next]_vars /\ WF_vars(LTick) /\ WF_vars(LTick1) /\ WF_vars(Block)
         /\ \A i \in Members : WF_vars(STick(i)) /\ WF_vars(Idle(i)) /\ WF_vars(Restart(i))
